@@ -39,13 +39,13 @@ pub trait ToStr {
 pub broadcast proof fn axiom_display_u64(v: u64, s: String)
     ensures #[trigger] vstd::string::to_string_from_display_ensures::<u64>(&v, s) ==> s@ == uint_str(v as int),
 {}
+// ... and a String prints itself
+#[verifier::external_body]
+pub broadcast proof fn axiom_display_string(v: String, s: String)
+    ensures #[trigger] vstd::string::to_string_from_display_ensures::<String>(&v, s) ==> s@ == v@,
+{}
 impl ToStr for &str {
     open spec fn str_spec(&self) -> Seq<char> { (*self)@ }
-    #[verifier::external_body]
-    fn to_string(&self) -> (r: String) { unimplemented!() }
-}
-impl ToStr for String {
-    open spec fn str_spec(&self) -> Seq<char> { self@ }
     #[verifier::external_body]
     fn to_string(&self) -> (r: String) { unimplemented!() }
 }
@@ -598,7 +598,7 @@ pub broadcast proof fn lemma_into_u128_from_u8(v: u8) ensures #[trigger] into_u1
 
 pub broadcast group group_base {
     axiom_text_cmp_total, lemma_push_gains, lemma_insert_gains,
-    axiom_uint_str_inj, axiom_str_uint_roundtrip, axiom_display_u64,
+    axiom_uint_str_inj, axiom_str_uint_roundtrip, axiom_display_u64, axiom_display_string,
     axiom_into_u128_refl_ok, axiom_into_u128_refl,
     lemma_into_u128_from_u128_ok, lemma_into_u128_from_u128,
     lemma_into_u128_from_u64_ok, lemma_into_u128_from_u64,
